@@ -7,7 +7,7 @@ _API = ["contracts.api_zone", "contracts.api_ac", "contracts.api_airtouch"]
 MODULES = {
     "C01": _SOCK,
     "C02": _SOCK + _API + _HB,
-    "C03": ["contracts.c06_crc", "contracts.frame_roundtrip"] + _CODECS + _FL,
+    "C03": ["contracts.c06_crc", "contracts.frame_roundtrip", "contracts.comms_registry"] + _CODECS + _FL,
     "C04": _CODECS + _API + _FL,
     "C05": _CODECS + _FL,
     "C06": ["contracts.c06_crc"] + _SOCK,
@@ -21,7 +21,7 @@ MODULES = {
     "C14": _API + ["contracts.sock_conn"],
     "C15": _SOCK + _HB + ["contracts.api_airtouch"],
     "C16": _SOCK,
-    "C17": _CODECS + _SOCK,
+    "C17": _CODECS + _SOCK + ["contracts.comms_registry"],
     "C18": ["contracts.discovery"],
     "C19": _API + ["contracts.discovery"] + _FL,
 }
